@@ -32,12 +32,14 @@ type ownCase struct {
 	Muts     []mut  `json:"muts"`
 }
 
-var alignProducers = []string{"clone", "clonebag", "subalign", "randsubalign-consecutive", "randsubalign-free", "selectsites", "seq-clone"}
-var bagProducers = []string{"clonebag", "seq-clone"}
+// clones, sub-alignments, site selections, and the other new objects the statement lists
+var alignProducers = []string{"clone", "clonebag", "subalign", "randsubalign-consecutive", "randsubalign-free", "selectsites", "seq-clone",
+	"bootstrap", "transpose", "unalign", "split", "consensus"}
+var bagProducers = []string{"clonebag", "seq-clone", "unalign"}
 
 // in-place mutations of a container
-var bagMuts = []string{"setchar", "seqchar-write", "getchar-write", "getcharbyname-write", "iteratechar-write", "revcomp", "revcomp-row", "tolower", "toupper", "replace", "sort", "appendid", "seq-reverse", "seq-complement"}
-var alignMuts = []string{"replacechar", "mask", "diffwithfirst", "trim", "shufflesites", "mutate", "addgaps", "swap", "replacematch"}
+var bagMuts = []string{"seqbyname-write", "rename-write", "setchar", "seqchar-write", "getchar-write", "getcharbyname-write", "iteratechar-write", "revcomp", "revcomp-row", "tolower", "toupper", "replace", "sort", "appendid", "seq-reverse", "seq-complement"}
+var alignMuts = []string{"concat", "append", "replacechar", "mask", "diffwithfirst", "trim", "shufflesites", "mutate", "addgaps", "swap", "replacematch"}
 
 func genMut(t *rapid.T, kinds []string) mut {
 	var m mut
@@ -56,7 +58,10 @@ func genOwn(t *rapid.T) ownCase {
 	alphabet := rapid.SampledFrom([]string{"nt", "aa"}).Draw(t, "alphabet")
 	bag := rapid.IntRange(0, 4).Draw(t, "bag") == 0
 	c.Ali = genContainer(t, alphabet, bag, 5, 16)
-	prods := alignProducers
+	prods := append([]string{}, alignProducers...)
+	if c.Ali.declared() == "aa" {
+		prods = append(prods, "codonalign")
+	}
 	kinds := append(append([]string{}, bagMuts...), alignMuts...)
 	if bag {
 		prods = bagProducers
@@ -115,6 +120,16 @@ func applyMut(sb align.SeqBag, m mut, seed int64) {
 			}
 			return false
 		})
+	case "seqbyname-write":
+		if x, ok := sb.GetSequenceByName(name); ok && x.Length() > 0 {
+			x.SequenceChar()[mod(m.Site, x.Length())] = ch
+		}
+	case "rename-write":
+		nn := name + "_r"
+		sb.Rename(map[string]string{name: nn})
+		if b, ok := sb.GetSequenceChar(nn); ok && len(b) > 0 {
+			b[mod(m.Site, len(b))] = ch
+		}
 	case "revcomp":
 		sb.ReverseComplement()
 	case "revcomp-row":
@@ -139,6 +154,26 @@ func applyMut(sb align.SeqBag, m mut, seed int64) {
 	}
 	l := al.Length()
 	switch m.Kind {
+	case "concat":
+		// the same names, what `build seqboot --partition` does with the replicates of the parts
+		o := align.NewAlign(al.Alphabet())
+		al.IterateAll(func(nm string, b []uint8, cm string) bool {
+			x := append([]uint8{}, b...)
+			if len(x) > 0 {
+				x[0] = ch
+			}
+			o.AddSequenceChar(nm, x, cm)
+			return false
+		})
+		al.Concat(o)
+	case "append":
+		o := align.NewAlign(al.Alphabet())
+		b := make([]uint8, l)
+		for i := range b {
+			b[i] = ch
+		}
+		o.AddSequenceChar(fmt.Sprintf("new%d", m.Len), b, "appended")
+		al.Append(o)
 	case "replacechar":
 		if l > 0 {
 			al.ReplaceChar(name, mod(m.Site, l), ch)
@@ -228,6 +263,7 @@ func checkOwn(c ownCase) (o pbt.Outcome, err error) {
 
 	// ---- a copied container
 	var res align.SeqBag
+	var extra []align.SeqBag
 	var perr error
 	switch c.Producer {
 	case "clone":
@@ -250,6 +286,40 @@ func checkOwn(c ownCase) (o pbt.Outcome, err error) {
 		var x align.Alignment
 		x, perr = al.SelectSites(c.Ints)
 		res = x
+	case "bootstrap":
+		res = al.BuildBootstrap([]float64{1, 0.5, 1}[mod(c.J, 3)])
+	case "transpose":
+		var x align.Alignment
+		x, perr = al.Transpose()
+		res = x
+	case "unalign":
+		res = src.Unalign()
+	case "consensus":
+		res = al.Consensus(c.I%2 == 0, c.J%2 == 0)
+	case "split":
+		if l < 2 {
+			o.Skip = true
+			return o, nil
+		}
+		ps := align.NewPartitionSet(l)
+		if c.J%2 == 0 {
+			ps.AddRange("p1", "m", 0, l-1, 2)
+			ps.AddRange("p2", "m", 1, l-1, 2)
+		} else {
+			k := 1 + mod(c.I, l-1)
+			ps.AddRange("p1", "m", 0, k-1, 1)
+			ps.AddRange("p2", "m", k, l-1, 1)
+		}
+		var parts []align.Alignment
+		parts, perr = al.Split(ps)
+		if perr == nil && len(parts) == 2 {
+			res = parts[mod(c.I, 2)]
+			extra = append(extra, parts[1-mod(c.I, 2)])
+		}
+	case "codonalign":
+		nt := ntFor(c.Ali, c.Seed, true)
+		extra = append(extra, nt)
+		res, perr = al.CodonAlign(nt)
 	default:
 		panic("harness: unknown producer " + c.Producer)
 	}
@@ -257,25 +327,54 @@ func checkOwn(c ownCase) (o pbt.Outcome, err error) {
 		return o, fmt.Errorf("harness: %s with valid arguments failed: %v", c.Producer, perr)
 	}
 	_ = isAl
-	s0 := snapshot(src)
+	// the source(s): the receiver and every other object that must stay as it is (the nucleotide
+	// set of CodonAlign, the other part of Split)
+	others := append([]align.SeqBag{src}, extra...)
+	before := make([]snap, len(others))
+	for i, x := range others {
+		before[i] = snapshot(x)
+	}
+	untouched := func() string {
+		for i, x := range others {
+			sn := snapshot(x)
+			if d := before[i].diff(sn); d != "" {
+				return fmt.Sprintf("object %d: %s", i, d)
+			}
+			if d := sn.inconsistent(); d != "" {
+				return fmt.Sprintf("object %d: %s", i, d)
+			}
+		}
+		return ""
+	}
 	r0 := snapshot(res)
+	if d := r0.inconsistent(); d != "" {
+		return o, fmt.Errorf("%s: the result is inconsistent: %s", c.Producer, d)
+	}
 	// 1. mutate the result, look at the source
 	for k, m := range c.Muts {
 		applyMut(res, m, c.Seed)
-		if d := s0.diff(snapshot(src)); d != "" {
+		if d := untouched(); d != "" {
 			return o, fmt.Errorf("%s: mutation %d (%s) of the RESULT changed the SOURCE: %s", c.Producer, k, m.Kind, d)
+		}
+		if d := snapshot(res).inconsistent(); d != "" {
+			return o, fmt.Errorf("%s: after mutation %d (%s) the RESULT is inconsistent (an access by name does not reach the row seen by index): %s", c.Producer, k, m.Kind, d)
 		}
 	}
 	r1 := snapshot(res)
 	changed := r0.diff(r1) != ""
-	// 2. mutate the source, look at the result
-	for k, m := range c.Muts {
-		applyMut(src, m, c.Seed)
-		if d := r1.diff(snapshot(res)); d != "" {
-			return o, fmt.Errorf("%s: mutation %d (%s) of the SOURCE changed the RESULT: %s", c.Producer, k, m.Kind, d)
+	// 2. mutate the source(s), look at the result
+	for i, x := range others {
+		if i > 0 && c.Producer == "split" {
+			continue
+		}
+		for k, m := range c.Muts {
+			applyMut(x, m, c.Seed)
+			if d := r1.diff(snapshot(res)); d != "" {
+				return o, fmt.Errorf("%s: mutation %d (%s) of the SOURCE (object %d) changed the RESULT: %s", c.Producer, k, m.Kind, i, d)
+			}
 		}
 	}
-	if s0.diff(snapshot(src)) != "" {
+	if before[0].diff(snapshot(src)) != "" {
 		changed = true
 	}
 	for _, m := range c.Muts {
